@@ -1905,8 +1905,11 @@ def disconnect_during_negotiation_reaction_case(run, rng, pv, idx):
     import minecraft
     from minecraft.networking import connection as C
     sites = []
-    for fn in (C.StatusReactor.react, C.PlayingStatusReactor.handle_status,
-               C.PlayingStatusReactor.handle_proto_version):
+    fns = [C.StatusReactor.react, C.PlayingStatusReactor.handle_status,
+           C.PlayingStatusReactor.handle_proto_version]
+    if C.PlayingStatusReactor.react is not C.StatusReactor.react:
+        fns.insert(0, C.PlayingStatusReactor.react)
+    for fn in fns:
         src, first = inspect.getsourcelines(fn)
         for i, ln in enumerate(src[1:], 1):
             t = ln.strip()
@@ -1937,6 +1940,13 @@ def disconnect_during_negotiation_reaction_case(run, rng, pv, idx):
                  handle_exception=rec.handle_exception,
                  handle_exit=rec.handle_exit)
         conn.vf_log = rec.log
+        # an ordinary listener for the status response: it runs after the
+        # built-in reaction, whether or not that reaction still had anything
+        # to do (nobody signals 'ignore' in this conversation)
+        from minecraft.networking.packets import clientbound as _cbs
+        response_seen = []
+        conn.register_packet_listener(
+            lambda p: response_seen.append(1), _cbs.status.ResponsePacket)
         mon.use_tool_id(TOOL, 'vf-neg-hold')
         mon.register_callback(TOOL, mon.events.LINE, on_line)
         mon.set_local_events(TOOL, code, mon.events.LINE)
@@ -1972,6 +1982,11 @@ def disconnect_during_negotiation_reaction_case(run, rng, pv, idx):
         run.count('disconnects_during_negotiation_reaction')
         run.seen('negotiation_hold_sites', label)
         later = getattr(conn, 'vf_generation', 0) - result['generation']
+        if not rec.exceptions and len(response_seen) != 1:
+            run.violation('listeners/skipped-after-racing-disconnect',
+                          'the ordinary listener for the status response was '
+                          'called %d times (no listener signalled ignore, no '
+                          'error was reported)' % len(response_seen), w)
         if 'raised' in result:
             run.violation('disconnect/raised-during-negotiation',
                           'disconnect() raised',
